@@ -15,7 +15,9 @@ Inductive c27case :=
        (fullA : bytes)                  (* u.FullURI() again: now serialised from the args *)
        (pfa : obs) (argsA : list (bytes * bytes))   (* Parse(nil, fullA) and its QueryArgs() *)
        (pra : obs) (argsR : list (bytes * bytes))   (* Parse(u.Host(), u.RequestURI()) after QueryArgs(), and its QueryArgs() *)
-       (nu_ok : bool) (nu_scheme nu_host nu_query : bytes).  (* net/url.Parse(uri): accepted?, Scheme, Host, RawQuery *)
+       (nu_ok : bool) (nu_scheme nu_host nu_query : bytes)   (* net/url.Parse(uri): accepted?, Scheme, Host, RawQuery *)
+(* the implementation panicked: stage 0 = in Parse(hostArg, uri) itself, 1 = later (serialising or re-parsing what it had accepted) *)
+| CPanic (hostArg uri : bytes) (stage : N).
 
 Definition obs_of (r : ures URI) : obs :=
   match r with
@@ -45,6 +47,7 @@ Definition corr_ok (c : c27case) : bool :=
           && obs_eqb (obs_of (parse [] full)) pf
           && obs_eqb (obs_of (parse (Host u) req)) pr
       end
+  | CPanic _ _ _ => false            (* the model never panics *)
   end.
 
 Definition has_byte (c : N) (s : bytes) : bool := existsb (N.eqb c) s.
@@ -83,4 +86,5 @@ Definition prop_ok (c : c27case) : bool :=
        | None => negb nu_ok
        | Some (s, h, q) => nu_ok && beq s nu_scheme && beq h nu_host && beq q nu_query
        end)
+  | CPanic _ _ stage => stage =? 0   (* a panic while serialising / re-parsing an accepted URI is a failed round trip *)
   end.
